@@ -103,7 +103,7 @@ def chain(mn, params, transform_id=None, transforms=None):
 
 
 def _mk_chain(mn):
-    @contract(PS.to_surfaces_mcnp, props=['C02'], name=f'chain[{mn}]')
+    @contract(PS.to_surfaces_mcnp, props=['C02', 'C16'] if mn[0] == 'k' else ['C02'], name=f'chain[{mn}]')
     class _C:
         def cases(S):
             for label, params in card_cases(S, mn):
@@ -130,6 +130,10 @@ def _mk_chain(mn):
                     t4_region(result, pt), mcnp_region(mn, p, pt))]))
                 return
             yield from same_region(t4_region(result, pt), mcnp_region(mn, p, pt))
+            if mn[0] == 'k':
+                # C16: number_items() gives the MCNP number to the first member of the collection, and a boundary
+                # condition designates that number: it must be the cone, the apex plane of a one-sheet cone follows
+                yield 'the-cone-comes-first-in-the-collection', result.surfs[0][0].type_surface.name.startswith('CONE')
     return _C
 
 
